@@ -34,12 +34,14 @@ NEEDS_EXT = True
 TRUSTED = [
     "C04 world: the kernel is a process table seen through listdir(/proc), kill(pid,0), the Tgid line of /proc/<pid>/status and the start time in /proc/<pid>/stat; table changes happen between psutil's calls and (for process_iter) right after the listing — not inside a single file read",
     "C04 model: Process objects are numbered references (pid, start time seen by _init, _gone, _pid_reused); as_dict() is modelled by the kind of each requested name (no access / reads /proc/<pid>/… / starts with _raise_if_pid_reused) in the iteration order of set(attrs), which the harness reads off CPython; attrs=[] (all names) is modelled but not exercised on the fake procfs",
-    "C04 harness: thread ids are emulated as directories of the fake root that the wrapped os.listdir hides; the wrapped os.kill converts its argument with the real pid_t converter (os.getsid) before consulting the simulated table",
+    "C04 harness: thread ids are emulated as directories of the fake root that the wrapped os.listdir hides; the wrapped os.kill converts its argument with the real pid_t converter (os.getsid) before consulting the simulated table (and lets table changes happen right after the probe for _pslinux.pid_exists called on its own)",
+    "C04 attrs=[]: the complete fake /proc/<pid> (harness/props/c04_fullproc.py: stat, status, statm, cmdline, environ, io, smaps, smaps_rollup, fd/, fdinfo/, task/, cwd, exe + /proc/meminfo, /proc/net/*) is rendered from proc(5); nice / ionice / cpu_affinity (system calls on the PID) are answered from the simulated table; EACCES is injected at _pslinux.open_binary/open_text, os.readlink, os.listdir (the harness runs as root); only processes that have a status file are used there",
+    "C04 two threads (harness/props/c04_preempt.py): sys.settrace baton scheduler; scheduling points = every line of process_iter (+ inner add/remove), of the cache_clear lambda and of Process.is_running, every bytecode of those that loads/stores _pmap or _pids_reused and the bytecode after it, entry and _get_ident line of Process._init, item boundaries of the consumer loop; all schedules with <= 2 pre-emptions (thorough; with kernel events on a 1/6 sub-lattice) and item-boundary schedules with 3 pre-emptions; every-bytecode granularity is sampled only; more than two pre-emptions / more than two threads are not explored",
 ]
 MANIFEST = {
-    "level_text": "Machine-checked Lean 4 proofs over a model of pids()/pid_exists()/process_iter()/cache_clear()/is_running()'s cache side effect. For every table: pids() is the strictly ascending list of exactly the listed PIDs (C04_pids_sorted_exact, C04_pids_unique; byte level: C04_listing_exact); pid_exists(n) is a bool, True exactly for listed PIDs, for every int n and every well-formed table with threads, foreign processes and broken status files (C04_pidExists_iff). For EVERY history, overlapping generators and both prologue orders included: each generator yields strictly ascending PIDs without duplicates, all from the listing it took, and next() can only yield/stop/raise ValueError (invalid attrs)/IndexError (empty table) (C04_iter_ascending, C04_overlap_safety, C04_yield_was_listed); each next() visits the remaining listed PIDs in order and skips a PID only if it vanished (C04_iter_each_listed_once at full strength for the repaired prologue order, C04_iter_each_listed_once_partial for the current code when no PID is flagged at the start of the iteration); info keys are exactly the requested names (C04_info_keys). For every SEQUENTIAL history the whole output trace of the model — PIDs, object identities, info keys — equals that of a shared-cache specification machine (C04_refines_sequential, by an abstraction function), whose cache keeps an entry iff its PID is still listed and not flagged, yields the cached object else a fresh one, and is emptied by cache_clear (C04_start_cache, C04_spec_visit, C04_isRunning_flags, C04_cache_clear). Proved counterexamples (replayed on the real code): L4 OverflowError for the pre-fix pid_exists, L19 flagged PID skipped, overlapping generators, cache_clear while suspended, ppid reuse check (the last four are known findings). Tied to the code by translator facts (range guard, prologue order, valid/access-free/reuse-checking attr names) feeding cfg_good and the model the driver runs, and by a differential run of the real functions over a fake procfs incl. exhaustive short histories and the complete pid_exists table.",
-    "level_note": "Partial: identity is proved for sequential histories only (overlaps, cache_clear while suspended, ppid+recycled PID, flagged PID at iteration start are known findings with proved counterexamples); completeness is stated per next(). Trusted: Lean kernel + {propext, Classical.choice, Quot.sound}; the translator; the correspondence harness; atomicity (table changes between psutil's OS accesses and right after the listing); CPython generator finalisation and set iteration order; as_dict modelled by attribute kind.",
-    "technique": "Lean 4 generator state machine + refinement to a shared-cache specification by an abstraction function, invariants by induction over histories, translator-fed proof obligation, differential correspondence over a fake procfs with exhaustive short histories",
+    "level_text": "Machine-checked Lean 4 proofs over a model of pids()/pid_exists()/process_iter()/cache_clear()/is_running()'s cache side effect. For every table: pids() is the strictly ascending list of exactly the listed PIDs (C04_pids_sorted_exact, C04_pids_unique; byte level: C04_listing_exact); pid_exists(n) is a bool, True exactly for listed PIDs, for every int n and every well-formed table with threads, foreign processes and broken status files (C04_pidExists_iff). For EVERY history, overlapping generators and both prologue orders included: each generator yields strictly ascending PIDs without duplicates, all from the listing it took, and next() can only yield/stop/raise ValueError (invalid attrs)/IndexError (empty table) (C04_iter_ascending, C04_overlap_safety, C04_yield_was_listed); each next() visits the remaining listed PIDs in order and skips a PID only if it vanished (C04_iter_each_listed_once at full strength for the repaired prologue order, C04_iter_each_listed_once_partial for the current code when no PID is flagged at the start of the iteration); info keys are exactly the requested names (C04_info_keys). For every SEQUENTIAL history the whole output trace of the model — PIDs, object identities, info keys — equals that of a shared-cache specification machine (C04_refines_sequential, by an abstraction function), whose cache keeps an entry iff its PID is still listed and not flagged, yields the cached object else a fresh one, and is emptied by cache_clear (C04_start_cache, C04_spec_visit, C04_isRunning_flags, C04_cache_clear). The platform functions are covered branch by branch: _psposix.pid_exists (PID 0, ESRCH, EPERM, ok, OverflowError: C04_posix_pidExists_branches), _pslinux.pid_exists called on its own with ANY table changes between the kill probe and the status read (C04_linux_pidExists_linearizable: the answer is right for the table at the probe or at the read; C04_linux_pidExists_iff without changes; C04_platform_eq ties them to the front-end model); bool arguments are ints (C04_pidExists_bool), floats are pinned as outside the statement (C04_pidExists_float: TypeError for positive floats). as_dict's ad_value substitution: keys exactly the requested names, ad_value exactly where the getter raises AccessDenied/ZombieProcess (C04_asdict_ad_value). Two threads in the prologue's drain loop: C04_drain_race_counterexample (KeyError with the unguarded pop) and C04_drain_guarded_safe (no KeyError, no flag lost, every schedule, for the guarded pop). Proved counterexamples (replayed on the real code): L4 OverflowError for the pre-fix pid_exists, L19 flagged PID skipped, overlapping generators, cache_clear while suspended, ppid reuse check, the _pids_reused.pop() race of two threads (the last five are known findings; the race has a proposed fix). Tied to the code by translator facts (range guard, prologue order, valid/access-free/reuse-checking attr names) feeding cfg_good and the model the driver runs, and by a differential run of the real functions over a fake procfs incl. exhaustive short histories, the complete pid_exists table (front-end, both platform functions, windows between probe and read, bool/float arguments), attrs=[] (all names) on a complete fake /proc/<pid> with EACCES injection, and a deterministic bounded-pre-emption exploration of two threads using process_iter()/cache_clear()/is_running() at once (oracle from the statement; item-boundary schedules are also run through the Lean model, drain-loop steps through the Lean drain model).",
+    "level_note": "Partial: two threads: theorems cover the generator-level interleavings (Op.next of several generators) and the drain loop; finer interleavings are explored (<= 2 pre-emptions at line/shared-bytecode granularity), not proved. Identity is proved for sequential histories only (overlaps, cache_clear while suspended, ppid+recycled PID, flagged PID at iteration start are known findings with proved counterexamples); completeness is stated per next(). Trusted: Lean kernel + {propext, Classical.choice, Quot.sound}; the translator; the correspondence harness; atomicity (table changes between psutil's OS accesses and right after the listing); CPython generator finalisation and set iteration order; as_dict modelled by attribute kind.",
+    "technique": "Lean 4 generator state machine + refinement to a shared-cache specification by an abstraction function, invariants by induction over histories, translator-fed proof obligation, differential correspondence over a fake procfs with exhaustive short histories, bounded-pre-emption schedule exploration of real threads (sys.settrace baton scheduler) tied to the Lean model at item granularity",
     "design_ref": "DESIGN.md §5 C04",
 }
 ASSUMPTIONS = [
@@ -495,9 +497,15 @@ class Impl:
                     self.kev(ev)
             else:
                 self.pending_kill_mid = list(op["mid"])
+            if op.get("deny"):                  # opening /proc/<n>/status fails with EACCES (hidepid / LSM)
+                if self.patches is None:
+                    self.patches = c04_fullproc.OsPatches(self)
+                self.patches.deny = {(op["n"], "status")}
             try:
                 r = self.linux.pid_exists(op["n"])
             finally:
+                if op.get("deny"):
+                    self.patches.deny = set()
                 if self.pending_kill_mid is not None:      # the probe raised before deciding (OverflowError)
                     mid, self.pending_kill_mid = self.pending_kill_mid, None
                     for ev in mid:
@@ -1031,7 +1039,10 @@ def gen_history(rng, family):
                         mid = [{"k": "exit", "pid": n}]
                     for e in mid:
                         b.k.apply(e)
-                b.h.append({"op": "linux_pid_exists", "n": n, "mid": mid})
+                op = {"op": "linux_pid_exists", "n": n, "mid": mid}
+                if rng.random() < 0.3:
+                    op["deny"] = True
+                b.h.append(op)
             elif r < 0.85:
                 b.h.append({"op": "pid_exists_arg", "t": "bool", "v": rng.random() < 0.5})
             else:
@@ -1186,6 +1197,10 @@ def pid_exists_table():
         [{"op": "linux_pid_exists", "n": 7, "mid": [{"k": "spawn", "p": mk_proc(7, 91)}]}],        # ESRCH at the probe → False
         [{"op": "linux_pid_exists", "n": 2, "mid": [{"k": "exit", "pid": 2}, {"k": "spawn", "p": mk_proc(2, 92)}]}],   # EPERM, then recycled → True
         [{"op": "linux_pid_exists", "n": 0, "mid": [{"k": "exit", "pid": 0}]}],
+        # the status file cannot be opened (EACCES): thread ids (own / foreign process), PIDs, an absent id, with a window
+        [{"op": "linux_pid_exists", "n": n, "mid": [], "deny": True} for n in (8, 9, 1, 2, 3, 6, 7, 0, PID_T_MAX)],
+        [{"op": "linux_pid_exists", "n": 8, "mid": [{"k": "exit", "pid": 1}, {"k": "spawn", "p": mk_proc(8, 93)}], "deny": True}],
+        [{"op": "linux_pid_exists", "n": 1, "mid": [{"k": "exit", "pid": 1}, thr(1, 6)], "deny": True}],
     ]
     return [h + [{"op": "pid_exists", "n": n} for n in args] + plat + odd,
             without0 + [{"op": "pid_exists", "n": n} for n in args] + plat + odd] + \
@@ -1233,7 +1248,7 @@ def features(h, rows):
         elif k == "posix_pid_exists":
             f.add("posix_pid_exists:%s" % (io.get("v") if io.get("kind") == "bool" else io.get("exc")))
         elif k == "linux_pid_exists":
-            f.add("linux_pid_exists%s:%s" % ("_window" if o["mid"] else "",
+            f.add("linux_pid_exists%s%s:%s" % ("_denied" if o.get("deny") else "", "_window" if o["mid"] else "",
                                               io.get("v") if io.get("kind") == "bool" else io.get("exc")))
         elif k == "pid_exists_arg":
             f.add("pid_exists_%s:%s" % (o["t"], io.get("v") if io.get("kind") == "bool" else io.get("exc")))
